@@ -359,6 +359,30 @@ func oneC15(cfg c15Cfg) (viol string, miss string) {
 		}
 		// disarm a slow callback that never fired (no entry expired so far): it must not delay the janitor NOW
 		disturbed := effective != nil && cfg.Disturb && atomic.SwapInt64(&effective.slow, 0) == 0
+		// a control ticker of this process measures how late timers are delivered right now: on a machine so
+		// loaded that ITS ticks come more than 40 ms apart, a late probe says nothing about the janitor
+		var maxGap int64
+		stopCtl := make(chan struct{})
+		ctlDone := make(chan struct{})
+		go func() {
+			defer close(ctlDone)
+			tk := time.NewTicker(time.Millisecond)
+			defer tk.Stop()
+			last := time.Now()
+			for {
+				select {
+				case <-tk.C:
+					now := time.Now()
+					if g := int64(now.Sub(last)); g > atomic.LoadInt64(&maxGap) {
+						atomic.StoreInt64(&maxGap, g)
+					}
+					last = now
+				case <-stopCtl:
+					return
+				}
+			}
+		}()
+		stopControl := func() { close(stopCtl); <-ctlDone }
 		for r := 1; r <= 3; r++ {
 			for i, c := range caches[:cfg.Caches] {
 				k := fmt.Sprintf("c%d/p%d", i, r)
@@ -377,12 +401,19 @@ func oneC15(cfg c15Cfg) (viol string, miss string) {
 					break
 				}
 				if time.Since(tp) > pace {
+					stopControl()
+					if g := time.Duration(atomic.LoadInt64(&maxGap)); g > 40*time.Millisecond {
+						stats.Inc("pace_inconclusive_machine_too_loaded")
+						return "", ""
+					}
 					return "", fmt.Sprintf("interval %dms: after the earlier waves (one sweep overran because of a slow callback: %v) an entry with TTL 300us was still physically present %v (= %d intervals) after it was stored, without user calls", cfg.Interval, disturbed, time.Since(tp).Round(time.Millisecond), int64(time.Since(tp)/time.Millisecond)/cfg.Interval)
 				}
 				time.Sleep(200 * time.Microsecond)
 			}
 			stats.Max("max_pace_latency_ms", time.Since(tp).Milliseconds())
 		}
+		stopControl()
+		stats.Max("max_control_ticker_gap_ms", time.Duration(atomic.LoadInt64(&maxGap)).Milliseconds())
 		if disturbed {
 			stats.Inc("configs_with_overrun_sweep")
 		}
